@@ -112,6 +112,8 @@ def region_of(c):
             return 16      # reader decodes the first 8 payload bytes as text to sniff the file style
     if c['fmt'] == 'lateral_boundary':
         return 0   # (region 1, the writer's end date at a year end, was retired by a9b6e29)
+    if c['fmt'] == 'cloud_rain':
+        return 0   # the step count comes from the file size: single-step files are fine
     if c['fmt'] == 'wind' and c['nx'] * c['ny'] == 1:
         return 12      # data records as long as the 1-word dummy record: reader cannot delimit the layers
     if len(c['steps']) == 1:
